@@ -43,7 +43,8 @@ def compare(cases):
     from cdd.shared.docstring_utils import emit_param_str
     bad, n = [], 0
     flat = [e for c in cases for e in c["entries"]]
-    for e, m in zip(flat, call_many("google_emit_param", flat)):
+    flat_lines = call_many("google_emit_param", flat)
+    for e, m in zip(flat, flat_lines):
         p = {}
         if e[1] is not None:
             p["typ"] = e[1]
@@ -55,9 +56,10 @@ def compare(cases):
         if i != m:
             bad.append({"stage": "Google parameter line (emit_param_str)", "input": e, "impl": i, "model": m})
     # lines the model wrote (the theorem's domain) and malformed lines
-    sets = []
+    sets, k = [], 0
     for c in cases:
-        sets.append(("domain", [m for m in call_many("google_emit_param", c["entries"])], c["entries"]))
+        sets.append(("domain", flat_lines[k:k + len(c["entries"])], c["entries"]))
+        k += len(c["entries"])
         if c["wild"]:
             sets.append(("wild", c["wild"], None))
     for (kind, lines, entries), m in zip(sets, call_many("google_params", [s[1] for s in sets])):
@@ -135,4 +137,228 @@ def compare_numpy(cases):
         n += 1
         if got != want:
             bad.append({"stage": "NumPy parameter section", "input": units, "impl": got, "model": want})
+    return n, bad
+
+
+# ---- where the prose ends (Model/GoogleHead.v) -------------------------------------------------------------------------------------
+HEADS = ["Scale every sample of the signal.", "The gain is applied sample by sample; the function then", "Nothing is modified in place.",
+         "args: see below for the details", "A note about usage - colons: like this one", "Returns nothing", "See Args: below.", "x", "Arguments follow"]
+SEPS = ["\n\n", "\n", "\n    \n    ", "\n\n\n", " ", "", "\n  "]
+
+
+def gen_head(rng):
+    paras = [" ".join(rng.sample(HEADS, rng.randint(1, 2))) for _ in range(rng.randint(0, 3))]
+    head = rng.choice(["\n\n", "\n"]).join(paras)
+    k = rng.random()
+    if k < 0.7:
+        body = "Args:\n" + "\n".join("  %s (%s): %s" % (rng.choice(NAMES), rng.choice(TYPES), rng.choice(WORDS)) for _ in range(rng.randint(1, 3)))
+    elif k < 0.85:
+        body = "Returns:\n  int: the result"
+    else:
+        body = rng.choice(["", "Argh: not a section", "Parameters"])
+    lead = rng.choice(["", "", "\n", "\n    "])
+    return lead + head + (rng.choice(SEPS) if body else "") + body
+
+
+def compare_head(texts):
+    from cdd.shared.docstring_parsers import _scan_phase_numpydoc_and_google, parse_docstring
+    from cdd.shared.docstring_utils import Style
+    bad, n = [], 0
+    for t, m in zip(texts, call_many("google_scan_doc", texts)):
+        try:
+            with contextlib.redirect_stderr(io.StringIO()):
+                i = _scan_phase_numpydoc_and_google(t, parse_original_whitespace=False, arg_tokens=("Args:",), return_tokens=("Returns:",),
+                                                    style=Style.google)["doc"]
+        except BaseException as e:  # noqa
+            i = "raises " + type(e).__name__
+        n += 1
+        if i != m:
+            bad.append({"stage": "Google scanner: text in front of the section", "input": t, "impl": i, "model": m})
+    with_args = [t for t in texts if "Args:\n  " in t and "Returns:" not in t]
+    for t, m in zip(with_args, call_many("google_docstring", with_args)):
+        if not m[2] or m[1] in ("raises", "other"):
+            continue        # lines after the section (or a cut inside it) are appended to the description afterwards: not in the model
+        try:
+            with contextlib.redirect_stderr(io.StringIO()):
+                i = parse_docstring(t, emit_default_doc=False)["doc"]
+        except BaseException as e:  # noqa
+            i = "raises " + type(e).__name__
+        n += 1
+        if i != m[0]:
+            bad.append({"stage": "Google docstring: description of the parsed interface", "input": t, "impl": i, "model": m[0]})
+    return n, bad
+
+
+# ---- the line scanner and the whole docstring (Model/GoogleScan.v) ------------------------------------------------------------------
+def gen_section(rng):
+    """lines after "Args:": parameter lines at indent 2, continuation lines, now and then a blank or a dedented line"""
+    lines = []
+    for _ in range(rng.randint(1, 5)):
+        k = rng.random()
+        if k < 0.65 or not lines:
+            n, t = rng.choice(NAMES), rng.choice(TYPES)
+            d = " ".join(rng.choice(WORDS) for _ in range(rng.randint(1, 5)))
+            lines.append(rng.choice(["  %s (%s): %s" % (n, t, d), "  %s: %s" % (n, d), "  %s (%s): " % (n, t)]))
+        elif k < 0.8:
+            lines.append("    " + " ".join(rng.choice(WORDS) for _ in range(rng.randint(1, 4))))
+        elif k < 0.9:
+            lines.append(rng.choice(["", "   ", " x", "Note"]))
+        else:
+            lines.append("  " + rng.choice(["Raises:", "see: this", "plain words"]))
+    return "\n".join(lines) + rng.choice(["", "\n"])
+
+
+def compare_scan(sections, docs):
+    from cdd.shared.docstring_parsers import _scan_phase_numpydoc_and_google, parse_docstring
+    from cdd.shared.docstring_utils import Style
+    bad, n = [], 0
+    for sec, m in zip(sections, call_many("google_section_units", sections)):
+        text = "Header.\n\nArgs:\n" + sec
+        try:
+            with contextlib.redirect_stderr(io.StringIO()):
+                i = _scan_phase_numpydoc_and_google(text, parse_original_whitespace=False, arg_tokens=("Args:",), return_tokens=("Returns:",),
+                                                    style=Style.google).get("Args:")
+        except BaseException as e:  # noqa
+            i = "raises " + type(e).__name__
+        n += 1
+        if i != m[0]:
+            bad.append({"stage": "Google scanner: units of the parameter section", "input": sec, "impl": i, "model": m[0]})
+    for t, m in zip(docs, call_many("google_docstring", docs)):
+        if m[1] == "other":
+            continue
+        try:
+            with contextlib.redirect_stderr(io.StringIO()):
+                ir = parse_docstring(t, emit_default_doc=False)
+            i = [ir["doc"], [[k, v.get("typ"), v.get("doc") or ""] for k, v in ir["params"].items()]]
+        except BaseException as e:  # noqa
+            i = ["raises", "raises"]
+        # a description of several lines is folded afterwards by _set_name_and_type (word_wrap on): " ".join(map(str.strip, lines)).rstrip()
+        fold = lambda d_: " ".join(x.strip() for x in d_.split("\n")).rstrip()
+        want_params = m[1] if m[1] == "raises" else [[a, b, fold(c_)] for a, b, c_ in m[1]]
+        if want_params != "raises" and (len({w[0] for w in want_params}) != len(want_params) or
+                                        any(t_ in w[2] for w in want_params for t_ in ("str", "int", " or", "or ", "List", "`"))):
+            continue
+        n += 1
+        if i[1] != want_params:
+            bad.append({"stage": "Google docstring: parameters", "input": t, "impl": i[1], "model": want_params})
+        elif m[2] and i[0] != m[0]:
+            bad.append({"stage": "Google docstring: description", "input": t, "impl": i[0], "model": m[0]})
+    return n, bad
+
+
+# ---- a whole NumPy docstring (Model/NumpyScan.v) ------------------------------------------------------------------------------------
+def gen_numpy_doc(rng):
+    lines = []
+    for n in rng.sample(NAMES, rng.randint(1, 4)):
+        k = rng.random()
+        if k < 0.8:
+            lines.append("%s : %s" % (n, rng.choice(TYPES)))
+            if rng.random() < 0.8:
+                lines.append("    " + " ".join(rng.choice(WORDS) for _ in range(rng.randint(1, 5))))
+        elif k < 0.9:
+            lines.append(n)
+            lines.append("    " + rng.choice(WORDS))
+        else:
+            lines.append(rng.choice(["", "Notes:", "  x", "See also"]))
+    head = rng.choice(["Scale it.", "Two paragraphs.\n\nOf prose", "A well-known a-b case", "x"])
+    return rng.choice(["", "\n", "\n    "]) + head + rng.choice(["\n\n", "\n", "\n\n\n"]) + "Parameters\n----------\n" + "\n".join(lines) + rng.choice(["", "\n"])
+
+
+def compare_numpy_doc(docs):
+    from cdd.shared.docstring_parsers import parse_docstring
+    bad, n = [], 0
+    for t, m in zip(docs, call_many("numpy_docstring", docs)):
+        fold = lambda d_: " ".join(x.strip() for x in d_.split("\n")).rstrip()      # what _set_name_and_type makes of several lines
+        want = [[a, b, fold(c_ or "")] for a, b, c_ in m[1]]
+        if len({w[0] for w in want}) != len(want) or any(t_ in w[2] for w in want for t_ in ("str", "int", " or", "or ", "List", "`")):
+            continue
+        try:
+            with contextlib.redirect_stderr(io.StringIO()):
+                ir = parse_docstring(t, emit_default_doc=False)
+            i = [ir["doc"], [[k, v.get("typ"), v.get("doc") or ""] for k, v in ir["params"].items()]]
+        except BaseException as e:  # noqa
+            i = ["raises", "raises " + type(e).__name__]
+        n += 1
+        if i[1] != want:
+            bad.append({"stage": "NumPy docstring: parameters", "input": t, "impl": i[1], "model": want})
+        elif m[2] and i[0] != m[0]:
+            bad.append({"stage": "NumPy docstring: description", "input": t, "impl": i[0], "model": m[0]})
+    return n, bad
+
+
+# ---- the Google emitter as a whole (Model/GoogleEmit.v) -----------------------------------------------------------------------------
+def compare_emit(cases):
+    """cases: gen() results; the description is drawn here"""
+    import random
+    from collections import OrderedDict
+    from cdd.docstring.emit import docstring
+    from cdd.shared.docstring_parsers import parse_docstring
+    bad, n = [], 0
+    rng = random.Random(len(cases))
+    qs = []
+    for c in cases:
+        doc = rng.choice(["Scale it.", "Load the dataset", "Two paragraphs.\n\nOf prose", "x", ""])
+        qs.append([doc, c["entries"]])
+    for (doc, es), m in zip(qs, call_many("google_emit", qs)):
+        ir = {"name": None, "doc": doc, "returns": None,
+              "params": OrderedDict((e[0], {k: v for k, v in (("typ", e[1]), ("doc", e[2])) if v is not None}) for e in es)}
+        try:
+            with contextlib.redirect_stderr(io.StringIO()):
+                i = docstring(ir, docstring_format="google", word_wrap=False, emit_default_doc=False, indent_level=0)
+        except BaseException as e:  # noqa
+            i = "raises " + type(e).__name__
+        n += 1
+        if i != m:
+            bad.append({"stage": "Google docstring emitter", "input": [doc, es], "impl": i, "model": m})
+            continue
+        # the theorem's domain: a clean one-paragraph colon-free description, every entry documented -> the text parses back
+        if doc and "\n" not in doc and ":" not in doc and all(e[2] for e in es):
+            try:
+                with contextlib.redirect_stderr(io.StringIO()):
+                    back = parse_docstring(i, emit_default_doc=False)
+                got = [back["doc"], [[k, v.get("typ"), v.get("doc") or ""] for k, v in back["params"].items()]]
+            except BaseException as e:  # noqa
+                got = "raises " + type(e).__name__
+            if got != [doc, [[e[0], e[1], e[2]] for e in es]]:
+                bad.append({"stage": "Google round trip through the real emitter and parser (theorem's domain)", "input": [doc, es], "impl": got,
+                            "model": [doc, es]})
+    return n, bad
+
+
+# ---- the NumPy emitter as a whole (Model/NumpyEmit.v) -------------------------------------------------------------------------------
+def compare_emit_numpy(cases):
+    import random
+    from collections import OrderedDict
+    from cdd.docstring.emit import docstring
+    from cdd.shared.docstring_parsers import parse_docstring
+    bad, n = [], 0
+    rng = random.Random(len(cases) + 1)
+    qs = []
+    for c in cases:
+        doc = rng.choice(["Scale it.", "Load the dataset", "Two paragraphs.\n\nOf prose", "x", "", "A well-known a-b case"])
+        qs.append([doc, c["entries"]])
+    for (doc, es), m in zip(qs, call_many("numpy_emit", qs)):
+        ir = {"name": None, "doc": doc, "returns": None,
+              "params": OrderedDict((e[0], {k: v for k, v in (("typ", e[1]), ("doc", e[2])) if v is not None}) for e in es)}
+        try:
+            with contextlib.redirect_stderr(io.StringIO()):
+                i = docstring(ir, docstring_format="numpydoc", word_wrap=False, emit_default_doc=False, indent_level=0)
+        except BaseException as e:  # noqa
+            i = "raises " + type(e).__name__
+        n += 1
+        if i != m:
+            bad.append({"stage": "NumPy docstring emitter", "input": [doc, es], "impl": i, "model": m})
+            continue
+        # the theorem's domain: a clean one-paragraph description without ":" and "-", every entry typed
+        if doc and "\n" not in doc and ":" not in doc and "-" not in doc and all(e[1] for e in es) and \
+                not any(t_ in (e[2] or "") for e in es for t_ in ("str", "int", " or", "or ", "List", "`")):
+            try:
+                with contextlib.redirect_stderr(io.StringIO()):
+                    back = parse_docstring(i, emit_default_doc=False)
+                got = [back["doc"], [[k, v.get("typ"), v.get("doc") or ""] for k, v in back["params"].items()]]
+            except BaseException as e:  # noqa
+                got = "raises " + type(e).__name__
+            if got != [doc, [[e[0], e[1], e[2] or ""] for e in es]]:
+                bad.append({"stage": "NumPy round trip through the real emitter and parser (theorem's domain)", "input": [doc, es], "impl": got,
+                            "model": [doc, es]})
     return n, bad
